@@ -1,6 +1,6 @@
 """C01 - untrusted bytes become a message only if spec-valid, and always safely.
 DESIGN.md C01.1 - C01.6 (structural clauses; C01.7 cursor analysis withdrawn, see DESIGN.md)."""
-from engine.cfg import (Explorer, estr, is_call, is_int, is_member, is_ref, strip_addr, walk,
+from engine.cfg import (same_expr, Explorer, estr, is_call, is_int, is_member, is_ref, strip_addr, walk,
                         written_lvalues, event_expr, reach_from)
 from engine.facts import AnalysisBroken
 from engine import lib
@@ -496,6 +496,83 @@ def c01_3(ck, prog):
         raise AnalysisBroken('only %d DBusValidity-returning call sites found' % n)
 
 
+VALIDATORS = {
+    # boolean grammar validators the body / header validators rely on: callee -> (description, index of the
+    # start argument, index of the length argument)
+    '_dbus_string_validate_utf8': ('STRING values are valid UTF-8', 1, 2),
+    '_dbus_validate_path': ('OBJECT_PATH values are valid paths', 1, 2),
+    'dbus_type_is_valid': ('array element type codes are known type codes', None, None),
+}
+
+
+def c01_8(ck, prog):
+    """String-like values: the grammar validators are reached from the body validator with the whole
+    claimed range, a FALSE answer never ends in DBUS_VALID, and the UTF-8 machinery is the specification's."""
+    from rules import C16
+    C16.c16_1(ck, prog, rid='C01.8', utf8_only=True)
+    r = ck.rule('C01.8b', 'the body validator hands every STRING / OBJECT_PATH value whole to its grammar '
+                'validator and array element codes to dbus_type_is_valid; a FALSE answer never ends in '
+                'DBUS_VALID; the UTF-8 scanner rejects NUL before every advance', 'DOM',
+                breaks='a message carrying malformed UTF-8, a bad object path or an unknown element type code is '
+                       'accepted and handed to applications that trust it', floor=5)
+    V = 'dbus/dbus-marshal-validate.c'
+    vb = prog.fn('validate_body_helper', V)
+    reach = {k for k in prog.reachable_from([vb.key]) if k in prog.funcs and prog.funcs[k].file == V}
+    seen = set()
+    for k in sorted(reach):
+        fn = prog.funcs[k]
+        sites = [(b, i, c) for b, i, c in fn.calls() if c.get('callee') in VALIDATORS]
+        # calls made by the validators themselves (e.g. _dbus_validate_path is also a public predicate) are
+        # their own business: only look at functions on the way from validate_body_helper that are not validators
+        if fn.name in VALIDATORS or fn.name.startswith('_dbus_validate_') and fn.name != 'validate_body_helper' \
+                and not fn.name.startswith('_dbus_validate_body'):
+            continue
+        if not sites:
+            continue
+        ids = {c['id']: c for b, i, c in sites}
+
+        def on_exit(user, ctx, ret, ev, fn=fn, ids=ids):
+            if ret is None:
+                return
+            if ctx.const_of(ret) != 0:
+                return
+            for cid, c in ids.items():
+                if ctx.result_known(cid) is False:
+                    ctx.report('%s returns DBUS_VALID on a path where %s answered FALSE' % (fn.name, c['callee']),
+                               ev['line'] if ev else fn.endline, key=(c['callee'], c['line']))
+        ex = Explorer(fn, on_exit=on_exit, calls=set(VALIDATORS), track=None, cap=900000).run()
+        for b, i, c in sites:
+            cal = c['callee']
+            seen.add(cal)
+            desc, si, li = VALIDATORS[cal]
+            key = '%s:%s' % (fn.name, cal)
+            mine = [rep for kk, rep in ex.reports.items() if kk[0] == cal and kk[1] == c['line']]
+            if mine:
+                r.violation(key + ':false-is-invalid', fn.name, V, mine[0]['line'], mine[0]['reason'], mine[0]['path'])
+                continue
+            if si is not None:
+                a0 = strip_addr(c['args'][0])
+                whole = is_int(c['args'][si], 0) and (
+                    is_call(c['args'][li], '_dbus_string_get_length') and
+                    same_expr(strip_addr(c['args'][li]['args'][0]), a0) or is_ref(c['args'][li], 'claimed_len'))
+                # the string view is built over exactly the claimed bytes
+                inits = [cc for bb, ii, cc in fn.calls('_dbus_string_init_const_len')
+                         if same_expr(strip_addr(cc['args'][0]), a0)]
+                exact = inits and all(is_ref(cc['args'][2], 'claimed_len') for cc in inits)
+                if not whole or not exact:
+                    r.violation(key + ':whole-value', fn.name, V, c['line'],
+                                '%s is not given the whole claimed value (%s; view built with length %s)' % (
+                                    cal, estr(c)[:100], [estr(cc['args'][2]) for cc in inits]))
+                    continue
+            r.ok(key, {'site': '%s:%d' % (V, c['line']), 'checks': desc})
+    for cal in VALIDATORS:
+        if cal not in seen:
+            r.violation('validate_body_helper->%s' % cal, vb.name, V, vb.line,
+                        'the body validator no longer reaches %s (%s)' % (cal, VALIDATORS[cal][0]))
+    # header string fields go through the same body validator or their own predicates: C01.4 covers the cases
+    C16.utf8_scanner(r, prog)
+
+
 def run(ck):
     ck.explanation = (
         'Static rules over dbus-message.c, dbus-marshal-header.c, dbus-marshal-validate.c, dbus-marshal-basic.c, '
@@ -518,3 +595,4 @@ def run(ck):
         c01_5(ck, prog)
         c01_5b(ck, prog)
         c01_6(ck, prog)
+        c01_8(ck, prog)
